@@ -152,7 +152,7 @@ def no_valid_ranges(rep, prog):
             if q.kind == "try_map":
                 r = interp.call_value(q.extra, [pself.apply(interp, q.args[0])])
                 if isinstance(r, Adt) and r.name == "std::result::Result" and r.variant == 1:
-                    return mk_err(r.fields[0])
+                    return gram.convert_external_error(interp, inp, r.fields[0])
                 return r
             return mk_ok(pself.apply(interp, p))
     for items in ([], [Tok("S", "alt0", 1, dom="set")]):
@@ -212,9 +212,19 @@ def kind_survives(rep, prog):
          lambda: [mk(), Ptr(Cell(Tok("T", "pos2", "", dom="text"))), Ptr(Cell(Tok("O", "checkpoint"))), Tok("O", "errkind")]),
         ("<SemverParseError<I> as winnow::error::AddContext<I>>::add_context",
          lambda: [mk(), Ptr(Cell(Tok("T", "pos2", "", dom="text"))), Ptr(Cell(Tok("O", "checkpoint"))), Tok("T", "ctx", "", dom="ctx")]),
-        ("<SemverParseError<&'a str> as winnow::error::FromExternalError<&'a str, SemverParseError<&'a str>>>::from_external_error",
-         lambda: [Ptr(Cell(Tok("T", "pos2", "", dom="text"))), Tok("O", "errkind"), mk()]),
     ]
+    # every FromExternalError impl of the crate: the kind carried by the external error (the error itself when it is a
+    # SemverErrorKind, its `kind` field when it is a SemverParseError) must be the kind of the result
+    ext = gram.external_error_impls(prog)
+    if not ext:
+        rep.fail("E3-kind-survives", "SemverParseError|E3|missing from_external_error", "impl method not found")
+    for key, ty in ext:
+        if ty.startswith(E.SPE):
+            cases.append((key, lambda: [Ptr(Cell(Tok("T", "pos2", "", dom="text"))), Tok("O", "errkind"), mk()]))
+        elif ty == E.KIND or ty.startswith(E.KIND + "<"):
+            cases.append((key, lambda: [Ptr(Cell(Tok("T", "pos2", "", dom="text"))), Tok("O", "errkind"), Tok("O", "the-kind")]))
+        else:
+            rep.inconc("kind-survives: FromExternalError impl for an external error type %s" % ty)
     for key, mkargs in cases:
         if not prog.has_body(key):
             cands = [k for k in prog.bodies if "SemverParseError" in k and key.rsplit("::", 1)[1] in k]
